@@ -172,7 +172,12 @@ def run_case(case, col=None):
     out += type_facts(s)
     if out:
         return out
-    want = S.encode(s, v)
+    try:
+        want = S.encode(s, v)
+    except Exception:  # noqa  (the reference codec refuses the value, e.g. an encoding longer than a uint16 offset allows)
+        if col:
+            col.cls("discard:reference-codec-refuses-value")
+        return out
     if len(want) > 1000:
         if col:
             col.cls("discard:encoding-over-1000-bytes")
